@@ -230,8 +230,13 @@ func lenGuarded(t, base ssa.Value, blk *ssa.BasicBlock, strict bool) string {
 		}
 		return c.Call.Args[0] == base || normIdx(Desc(c.Call.Args[0])) == bd
 	}
+	td := normIdx(Desc(t))
 	same := func(v ssa.Value) bool {
 		if v == t {
+			return true
+		}
+		// a second load of the same header field (or the same conversion of it) denotes the same count
+		if d := normIdx(Desc(v)); d != "" && d == td && !strings.Contains(d, "call:") && !strings.Contains(d, "phi(") {
 			return true
 		}
 		if cv, ok := v.(*ssa.Convert); ok && cv.X == t {
